@@ -254,6 +254,13 @@ def _crcu_cases(tier, seed, focus):
         out.append(case('%s-tsan-perthread' % fl, 'crcu', fl, 'tsan',
                         ['--cfg=%s-tsan-perthread' % fl, '--focus=%s' % focus, '--layout=1', '--rt=0', '--enqueuers=3', '--readers=2',
                          '--barriers=2', '--calls=%d' % (8000 * scale), '--stall-ms=90000'], {}, cpus=8, timeout=600 * scale))
+    if focus == 'c04':
+        # quiet hand-over: the only traffic is one barrier and one helper destruction (a wake-up lost on the
+        # hand-over path is not repaired by unrelated call_rcu() calls)
+        for fl in (('memb', 'qsbr') if tier == 'quick' else FLAVORS):
+            out.append(case('%s-handover-quiet' % fl, 'crcu', fl, 'plain',
+                            ['--cfg=%s-handover-quiet' % fl, '--mode=handover', '--rounds=%d' % (40 * scale), '--hook-prob=0'], {},
+                            cpus=4, timeout=300 * scale))
     # futex faults on the helper / barrier wake-up paths
     for i, (fm, fargs) in enumerate(FAULT_MODES[1:5]):
         fl = FLAVORS[(seed + i) % 3]
